@@ -741,6 +741,9 @@ func Main() {
 			run.Inconclusive("corpus file not found")
 			return
 		}
+		// the worker's watchdog cuts a hang short after 3x the budget of this input (three
+		// executions may follow each other below: the re-measurements)
+		run.CaseBudget(4.5 * cpuBudgetFor(len(data)))
 		o := execute(c, data, 7)
 		// a CPU reading above the budget is re-measured: the verdict is the minimum of
 		// three runs (first-touch page faults of a freshly restored VM are charged to the
@@ -1526,11 +1529,11 @@ func GenCase(seed int64, idx int, files []*corpus.File) *Case {
 		default:
 			if (idx/32)%2 == 0 {
 				if (idx/64)%16 == 5 {
-				if c := genCaretDeviceCase(seed, idx/1024, files); c != nil {
-					return c
+					if c := genCaretDeviceCase(seed, idx/1024, files); c != nil {
+						return c
+					}
 				}
-			}
-			return genChildCountCase(seed, idx/64, files)
+				return genChildCountCase(seed, idx/64, files)
 			}
 			return genCFFDictCase(seed, idx/64, files)
 		}
